@@ -662,6 +662,25 @@ func init() {
 		return &TupleVal{E: []Value{x.tb.Ite(ok, v, x.tb.Int64(0)), errV}}
 	})
 	RegisterIntrinsic("fmt.Sprintf", func(x *Exec, s *State, c *CallCtx) Value {
+		if fs := c.Args[0].(*StrVal); !fs.LenOnly {
+			if _, concrete := x.concreteStr(fs); !concrete {
+				// a symbolic format string without arguments (data used as a format by mistake):
+				// text without '%' comes out unchanged; with a '%' the output is something else
+				// ("%!x(MISSING)", "%%" -> "%"), modelled as a string different from every other
+				args := x.variadicArgs(s, c.Args[1])
+				if len(args) == 0 {
+					has := x.tb.False
+					for i := 0; i < x.maxLen(fs); i++ {
+						has = x.tb.Or(has, x.tb.And(x.tb.ULt(x.i64(i), fs.Len), x.tb.Eq(fs.B[i], x.tb.BV(8, '%'))))
+					}
+					op := has
+					if fs.Opaque != nil {
+						op = x.tb.Or(op, fs.Opaque)
+					}
+					return &StrVal{B: fs.B, Len: fs.Len, Opaque: op}
+				}
+			}
+		}
 		return x.sprintf(s, x.formatString(c.Args[0]), x.variadicArgs(s, c.Args[1]))
 	})
 	RegisterIntrinsic("fmt.Errorf", func(x *Exec, s *State, c *CallCtx) Value {
